@@ -15,8 +15,10 @@ Theorem C19_collections_consistent_tls : forall recipe_of o evs,
   Forall conn_ok (w_conns (fst (run recipe_of o w_init evs))).
 Proof. exact run_conn_ok. Qed.
 
-(* the TLS adaptor shape of the model is the one of ssl_tcp_adaptor.hpp as it is now *)
-Theorem C19_adaptor_transcription_current : shape_ssl_tcp_adaptor = shape_ssl_tcp_adaptor.
-Proof. exact (eq_trans ssl_tcp_adaptor_is_the_transcribed_one (eq_sym ssl_tcp_adaptor_is_the_transcribed_one)). Qed.
+(* the TLS adaptor shape of the model is the one of ssl_tcp_adaptor.hpp as it is now: the fingerprint regenerated from
+   the source on this run (Gen_Shapes.v) equals the one of the file the simulation adaptor was transcribed from *)
+Theorem C19_adaptor_transcription_current :
+  shape_ssl_tcp_adaptor = [102; 98; 48; 100; 53; 102; 98; 101; 53; 49; 98; 98; 101; 52; 50; 54].
+Proof. exact ssl_tcp_adaptor_is_the_transcribed_one. Qed.
 
 Print Assumptions C19_disconnect_waits_for_the_write.
